@@ -50,6 +50,25 @@ def run : Handler := fun j => do
       y := (y.step (.restart (← cfgOf c))).1
       out := out.push (jObj [("kind", jStr "restart")])
     | .error _ =>
+     match e.getObjVal? "update" with
+     | .ok u =>
+      let qi ← natOf (← field u "q")
+      let new ← conOf (← field u "con")
+      let ow ← match ← (← field u "overwrite").getStr? with
+        | "no" => pure Overwrite.no
+        | "yes" => pure Overwrite.yes
+        | "improved" => pure Overwrite.improved
+        | s => throw s!"overwrite {s}"
+      let tie := match u.getObjVal? "tie_replace" with
+        | .ok (Json.bool b) => b
+        | _ => false
+      match fps[qi]? with
+      | some k =>
+        y := { y with st := updateFromTree tie ow k new y.st }
+        out := out.push (jObj [("kind", jStr "update"), ("searches", jNat y.st.searches),
+          ("stored", jOptCon (y.st.dd.view k))])
+      | none => throw "bad net index"
+     | .error _ =>
       let qi ← natOf (← field e "q")
       let ans ← conOf (← field e "con")
       match nets[qi]?, fps[qi]? with
